@@ -139,21 +139,30 @@ fn image_hash(img: &BTreeMap<String, Vec<u8>>) -> u64 {
 /// listing operation), so the verdict of `check_open` is a function of those contents alone (level 0).
 /// The continuation additionally depends on .managed.json and on the names of the unreferenced files that a
 /// new writer can collide with - delete files, whose names are derived from opstamps (level 1); the
-/// directory-exact oracle of C10 depends on every file name (level 2).
+/// directory-exact oracle of C10 also depends on the kind of every unreferenced file and on whether the
+/// managed list knows it (level 2).
 fn canonical_hash(img: &BTreeMap<String, Vec<u8>>, level: u8) -> u64 {
     let Some(meta) = img.get("meta.json") else { return image_hash(img) };
     let Ok(v) = serde_json::from_slice::<Value>(meta) else { return image_hash(img) };
     let segs: Vec<String> = v["segments"].as_array().map(|a| a.iter().filter_map(|s| s["segment_id"].as_str().map(|x| x.replace('-', ""))).collect()).unwrap_or_default();
+    let managed: Vec<String> = img.get(".managed.json").and_then(|d| serde_json::from_slice::<Vec<String>>(d).ok()).unwrap_or_default();
+    let mut classes: Vec<(String, bool)> = vec![];
     let mut parts: Vec<(&String, Option<&Vec<u8>>)> = vec![];
     for (name, data) in img {
         let referenced = name == "meta.json" || (level >= 1 && name == ".managed.json") || segs.iter().any(|s| name.starts_with(s.as_str()));
         if referenced {
             parts.push((name, Some(data)));
-        } else if level >= 2 || (level == 1 && name.ends_with(".del")) {
+        } else if name.ends_with(".del") && level >= 1 {
             parts.push((name, None));
+        } else if level >= 2 {
+            // the collection treats unreferenced files uniformly: only their kind and whether the
+            // managed list knows them can matter
+            let listed = managed.iter().any(|m| m == name);
+            classes.push((name.rsplit('.').next().unwrap_or("").to_string(), listed));
         }
     }
-    hash_of(&(parts, level))
+    classes.sort();
+    hash_of(&(parts, classes, level))
 }
 
 /// cheap part of the oracle: open, content, referenced files complete and checksummed
@@ -220,32 +229,18 @@ fn check_continue(img: &BTreeMap<String, Vec<u8>>, ids: &BTreeSet<u64>, cfg: &Wl
     if prop != "C10" {
         return Ok(());
     }
-    let idx = Index::open(sim.clone()).map_err(|e| ("reopen_fails".to_string(), format!("{e:?}")))?;
-    let files: BTreeSet<String> = sim.file_names().into_iter().collect();
-    let mut wantf: BTreeSet<String> = ["meta.json".to_string(), ".managed.json".to_string()].into_iter().collect();
-    for m in idx.searchable_segment_metas().map_err(|e| ("reopen_fails".to_string(), format!("{e:?}")))? {
-        for f in m.list_files() {
-            let f = f.to_string_lossy().to_string();
-            if files.contains(&f) {
-                wantf.insert(f);
-            }
-        }
-    }
-    let extra: Vec<&String> = files.difference(&wantf).collect();
-    if !extra.is_empty() {
-        return Err(("orphan_files_after_recovery".to_string(), format!("after one commit and one collection on the recovered index these files remain although nothing references them: {extra:?}")));
-    }
-    let managed: BTreeSet<String> = idx.directory().list_managed_files().into_iter().map(|p| p.to_string_lossy().to_string()).collect();
-    let want_managed: BTreeSet<String> = wantf.iter().filter(|f| !f.starts_with('.')).cloned().collect();
-    if managed != want_managed {
-        return Err(("managed_list_differs_after_recovery".to_string(), format!("managed list {managed:?} vs existing files {want_managed:?}")));
-    }
-    Ok(())
+    directory_exact(&sim, "_after_recovery", "after one commit and one collection on the recovered index")
 }
 
 /// narrow signatures of the recorded findings
 fn classify(rule: &str, h: &History, k: usize, choice: &ImageChoice, default_all: bool, fs: &FsAt) -> String {
-    let _ = (h, k, choice, default_all, fs);
+    let _ = (h, k);
+    // C10's recorded finding: register-before-create only holds when the file system keeps directory
+    // operations in issue order; images in which a later creation survived an earlier .managed.json
+    // replacement are classified apart, so that an orphan in an order-preserving image is still reported
+    if (rule == "orphan_files_after_recovery" || rule == "managed_list_differs_after_recovery") && !fs.order_preserving(&choice.entries, default_all) {
+        return format!("{rule}_reordered_directory_operations");
+    }
     rule.to_string()
 }
 
@@ -320,7 +315,10 @@ pub fn check_prefix(h: &History, k: usize, dev: usize, subsets: usize, seen: &mu
         casej["admissible"] = json!(admissible);
         casej["cfg"] = json!(h.cfg);
     }
-    let c10 = |r: &str| r == "orphan_files_after_recovery" || r == "managed_list_differs_after_recovery";
+    let c10 = |r: &str| r.starts_with("orphan_files_after_recovery") || r.starts_with("managed_list_differs_after_recovery");
+    for (r, _, casej) in out.iter_mut() {
+        casej["reordered"] = json!(r.ends_with("_reordered_directory_operations"));
+    }
     out.retain(|(r, _, _)| c10(r) == (prop == "C10"));
     out
 }
@@ -425,9 +423,10 @@ pub fn replay(case: &Value) -> Vec<Violation> {
             }
         }
     }
-    let c10 = |r: &str| r == "orphan_files_after_recovery" || r == "managed_list_differs_after_recovery";
+    let c10 = |r: &str| r.starts_with("orphan_files_after_recovery") || r.starts_with("managed_list_differs_after_recovery");
     out.retain(|(r, _)| c10(r) == (prop == "C10"));
-    out.into_iter().map(|(r, w)| Violation::new(&r, w, case.clone())).collect()
+    let reordered = case["reordered"].as_bool().unwrap_or(false);
+    out.into_iter().map(|(r, w)| Violation::new(&if reordered && c10(&r) { format!("{r}_reordered_directory_operations") } else { r }, w, case.clone())).collect()
 }
 
 pub struct FamilyOutcome {
@@ -441,11 +440,20 @@ pub struct FamilyOutcome {
 /// the crash-image family, for C01 (recovery oracle) or C10 (directory-exact oracle after recovery)
 pub fn crash_family(ctx: &Ctx, prop: &str) -> FamilyOutcome {
     let thorough = ctx.tier.is_thorough();
-    let (dev, subsets) = if thorough { (2usize, 12usize) } else { (2, 8) };
+    // C10 re-uses the family with its own (directory) oracle at smaller bounds: recovery itself is C01's
+    let (dev, subsets) = match (prop, thorough) {
+        ("C10", false) => (1usize, 6usize),
+        ("C10", true) => (2, 8),
+        (_, false) => (2, 8),
+        (_, true) => (2, 12),
+    };
     let mut st = Stats::default();
     let mut complete = true;
     let mut hinfo = vec![];
     for (hi, (name, steps, cfg, flush)) in histories(true).into_iter().enumerate() {
+        if prop == "C10" && !thorough && hi >= 4 {
+            continue;
+        }
         if ctx.out_of_time() {
             complete = false;
             continue;
@@ -487,7 +495,12 @@ pub fn crash_family(ctx: &Ctx, prop: &str) -> FamilyOutcome {
         let _ = std::fs::remove_file(&path);
     }
     // generated histories
-    let (glen, gdev, gsub) = if thorough { (4usize, 1usize, 8usize) } else { (3, 1, 6) };
+    let (glen, gdev, gsub) = match (prop, thorough) {
+        ("C10", false) => (2usize, 1usize, 4usize),
+        ("C10", true) => (3, 1, 6),
+        (_, false) => (3, 1, 6),
+        (_, true) => (4, 1, 8),
+    };
     let total = gen_histories(glen).len() as u64;
     let o = crate::iso::run_isolated(ctx, prop, "crash-gen", total, &format!("{glen}|{gdev}|{gsub}|{prop}"));
     complete &= o.complete;
